@@ -344,9 +344,10 @@ def plumbed_key(ctx, f, param):
                 n += 1
                 prm = A.params(f.node)
                 val = None
-                for kw in c.keywords:
-                    if kw.arg == param:
-                        val = kw.value
+                caller = ctx.repo.funcs.get(q)
+                for kwname, kwval in K.call_keywords(ctx, c, caller.module if caller is not None else None):
+                    if kwname == param:
+                        val = kwval
                 if val is None and param in prm:
                     i = prm.index(param)
                     if i < len(c.args):
